@@ -15,13 +15,16 @@ mkdir -p "$DEST"; cp "$OUT/patch.diff" "$OUT/meta.json" "$DEST/"; rm -rf "$DEST/
 copy_to=$(python3 -c "import json;print(json.load(open('$OUT/meta.json'))['demo_copy_to'])")
 crate=$(echo "$copy_to" | sed -E 's#crates/([^/]+)/.*#\1#')
 tname=$(basename "$copy_to" .rs)
+# the demo is run with the command its author recorded (it may need --features verif-hooks)
+demo_cmd=$(python3 -c "import json;print(json.load(open('$OUT/meta.json')).get('demo_cmd',''))")
+case "$demo_cmd" in cargo\ test*) ;; *) demo_cmd="cargo test -p $crate --offline --test $tname";; esac
 cd "$WT" && git checkout -q -- . && git clean -fdq
 # 1. demo on clean tree
 mkdir -p "$(dirname "$copy_to")"; cp "$OUT/demo/$(basename "$copy_to")" "$copy_to" 2>/dev/null || cp "$OUT"/demo/*.rs "$copy_to"
-cargo test -p "$crate" --offline --test "$tname" > "$DEST/demo_clean.log" 2>&1; demo_clean=$?
+( eval "$demo_cmd" ) > "$DEST/demo_clean.log" 2>&1; demo_clean=$?
 # 2. with the patch
 git apply "$OUT/patch.diff" || { echo "patch does not apply"; exit 2; }
-cargo test -p "$crate" --offline --test "$tname" > "$DEST/demo_patched.log" 2>&1; demo_patched=$?
+( eval "$demo_cmd" ) > "$DEST/demo_patched.log" 2>&1; demo_patched=$?
 rm -f "$copy_to"; rmdir "$(dirname "$copy_to")" 2>/dev/null
 cargo test --workspace --offline --no-fail-fast > "$DEST/suite_patched.log" 2>&1; suite=$?
 suite_summary=$(grep -E "^test result" "$DEST/suite_patched.log" | awk '{p+=$4; f+=$6} END {print p" passed, "f" failed"}')
